@@ -272,12 +272,18 @@ func (s *svc) sigusr1() (ok bool, err error) {
 
 // tcpAccepts: does a real client with this key get its bytes echoed through the server?
 func (s *svc) tcpAccepts(key []byte, expect bool) (bool, string) {
-	ccc, err := ss2022.NewClientCipherConfig(key, [][]byte{credx.IPSK(s.kl)}, false)
+	return tcpProbe(s.kl, s.port, s.echoTCP.Addr().(*net.TCPAddr).AddrPort(), key, expect)
+}
+
+// tcpProbe: a real client with this key connects to the ss2022 server on the loopback port and
+// asks for the echo target; accepted iff its bytes come back.
+func tcpProbe(kl, port int, echo netip.AddrPort, key []byte, expect bool) (bool, string) {
+	ccc, err := ss2022.NewClientCipherConfig(key, [][]byte{credx.IPSK(kl)}, false)
 	if err != nil {
 		return false, err.Error()
 	}
-	serverAddr := conn.AddrFromIPPort(netip.AddrPortFrom(netip.MustParseAddr("127.0.0.1"), uint16(s.port)))
-	target := conn.AddrFromIPPort(s.echoTCP.Addr().(*net.TCPAddr).AddrPort())
+	serverAddr := conn.AddrFromIPPort(netip.AddrPortFrom(netip.MustParseAddr("127.0.0.1"), uint16(port)))
+	target := conn.AddrFromIPPort(echo)
 	cc := ss2022.StreamClientConfig{Name: "c", InnerClient: netDialer{}, Addr: serverAddr, CipherConfig: ccc}
 	ctx, cancel := context.WithTimeout(context.Background(), 20*time.Second)
 	defer cancel()
